@@ -6,7 +6,7 @@
 //@ gsubst `lz4_flex::frame::Error` => `Lz4Error` :: R11 stub type (opaque error value)
 //@ gsubst `Infallible` => `VxInfallible` :: R11 stub type (opaque error value)
 //@ gsubst `to_le_bytes` => `vx_to_le_bytes` :: R11 stub for std `{u8,u32}::to_le_bytes` (result length is in the type; byte values unspecified)
-//@ gsubst `size_of_val` => `vx_size_of_val` :: R11 stub with the documented contract size_of_val(&x) == size_of::<T>() for Sized T
+//@ gsubst `size_of_val` => `vx_size_of_val` :: R11 stub for std::mem::size_of_val; contract: the size of each argument type used (u8, u32, [u8;7], [u8;16])
 #![allow(non_snake_case, unused)]
 use vstd::prelude::*;
 use std::mem::size_of;
@@ -182,11 +182,15 @@ impl MerkleHash {
     pub fn as_bytes(&self) -> (r: &[u8]) ensures r@.len() == 32 { unimplemented!() }
 }
 global layout MerkleHash is size == 32, align == 8;
-// std::mem::size_of_val(&x) == size_of::<T>() for Sized T (std documentation)
+// std::mem::size_of_val (no usable vstd specification): stub whose contract states the size per argument type actually used
+// (u8: 1, u32: 4, [u8; N]: N -- Rust reference, type layout); a call with any other type does not type-check
+pub trait VxSized { spec fn vx_size() -> nat; }
+impl VxSized for u8 { open spec fn vx_size() -> nat { 1 } }
+impl VxSized for u32 { open spec fn vx_size() -> nat { 4 } }
+impl VxSized for [u8; 7] { open spec fn vx_size() -> nat { 7 } }
+impl VxSized for [u8; 16] { open spec fn vx_size() -> nat { 16 } }
 #[verifier::external_body]
-pub fn vx_size_of_val<T>(x: &T) -> (r: usize) ensures r == vstd::layout::size_of::<T>() { std::mem::size_of_val(x) }
-// Rust reference (layout.array): [T; N] has size N * size_of::<T>()
-pub proof fn axiom_size_of_u8_array<const N: usize>() ensures vstd::layout::size_of::<[u8; N]>() == N { admit(); }
+pub fn vx_size_of_val<T: VxSized>(x: &T) -> (r: usize) ensures r == T::vx_size() { std::mem::size_of_val(x) }
 
 #[derive(Clone, Copy)]
 pub enum CompressionScheme { None, LZ4, ByteGrouping4LZ4 }
@@ -310,7 +314,7 @@ impl CasObjectInfoV1 {
                 ..*old(self) }),
 //@ body-start
         broadcast use vstd::layout::layout_of_primitives;
-        proof { axiom_size_of_u8_array::<7>(); axiom_size_of_u8_array::<16>();
+        proof {
             assert(self.chunk_hashes@.len() * vstd::layout::size_of::<MerkleHash>() == 32 * self.chunk_hashes@.len()) by (nonlinear_arith)
                 requires vstd::layout::size_of::<MerkleHash>() == 32;
             assert(self.chunk_boundary_offsets@.len() * vstd::layout::size_of::<u32>() == 4 * self.chunk_boundary_offsets@.len()) by (nonlinear_arith)
